@@ -107,7 +107,7 @@ Definition witness (p : path) : ty * Z :=
   | PLit1 => (tiny, 128)
   | PLitN => (tiny, 128)
   | PGlobalArr => (tiny, 128)
-  | PAssignFromElemN => (tiny, -129)
+  | PAssignFromElemN => (tint, 4294967296)
   | _ => (tiny, 0)
   end.
 
@@ -143,6 +143,6 @@ Lemma static_unsigned_clamps_refuted_l :
   mech_store PStatic utiny (-1) = Val (-1) /\ coerce utiny (-1) = Val 0.
 Proof. vm_compute. auto. Qed.
 Lemma bare_multidim_value_is_checked_refuted_l :
-  mech_store PAssignFromElemN tiny (-129) = Val (-129) /\ mech_store PAssignFromElemN tint 4294967296 = Val 4294967296 /\
-  mech_store PAssignFromElemN tiny 128 = Fail ERange /\ coerce tiny (-129) = Fail ERange /\ coerce tint 4294967296 = Fail ERange.
+  mech_store PAssignFromElemN tint 4294967296 = Val 4294967296 /\ coerce tint 4294967296 = Fail ERange /\
+  mech_store PAssignFromElemN tiny (-129) = Fail ERange /\ mech_store PAssignFromElemN tiny 128 = Fail ERange.
 Proof. vm_compute. auto. Qed.
